@@ -25,7 +25,7 @@ from .asttypes import (
 
 from .astutil import bistr
 
-from .common import NodeError, astfield, re_empty_line_cont_or_comment, re_empty_line_or_cont
+from .common import NodeError, astfield, re_empty_line_cont_or_comment
 
 from .parsex import Mode, parse_ExceptHandler, parse_match_case
 from .code import Code, _code_as_lines
@@ -100,8 +100,8 @@ def _reparse_raw_base(
             if (f
                 or (copya := copy.a).__class__ is not self.a.__class__
                 or copy_loc[:2] != self.loc[:2]
-                or not (re_empty_line_or_cont if root._lines[(bloc := self.bloc).end_ln][bloc.end_col:].strip() else
-                        re_empty_line_cont_or_comment).match(copy_root._lines[copy_loc.end_ln], copy_loc.end_col)  # e.g. a new trailing semicolon which would belong to the parents, or a new comment which would swallow what follows the node on its line
+                or not (m := re_empty_line_cont_or_comment.match(copy_root._lines[copy_loc.end_ln], copy_loc.end_col))  # e.g. a new trailing semicolon which would belong to the parents
+                or ((after := m.group(1)) and (after == '\\' or root._lines[(bloc := self.bloc).end_ln][bloc.end_col:].strip()))  # a line continuation may bring anything (`return \\\n;`), a new comment would swallow what follows the node on its line
                 or (blkhead_end and copy._loc_block_header_end()[2:] != blkhead_end)  # new source closed the header early and brought its own body (`a: b\nelse`), old body would not be where it is assumed to be
                 or (copya.__class__ is ExceptHandler and (parent := self.parent) and copy.parent.a.__class__ is not parent.a.__class__)  # `except` <-> `except*`, the other handlers have a say in that
             ):
